@@ -1014,8 +1014,8 @@ def run(ck):
             if c.strip():
                 S.append(("corpus", c, None))
     n_corpus = len(S)
-    n_gen = 4000 if quick else 30000
-    n_risky = 600 if quick else 6000
+    n_gen = 3000 if quick else 30000
+    n_risky = 500 if quick else 6000
     rng = ck.rng.fork("gen")
     for i in range(n_gen):
         S.append(("gen", gen_source(rng.fork("g%d" % i), False), None))
@@ -1052,164 +1052,170 @@ def run(ck):
             if m and m != s:
                 S.append(("mut-" + o, m, p))
 
-    reqs = [{"m": "fmt", "src": s, "widths": WIDTHS, "indents": INDENTS, "cst": True, "path": p} for (_, s, p) in S]
-    t0 = time.time()
-    res = run_harness(exe, reqs)
-    ck.coverage["harness_s"] = round(time.time() - t0, 1)
-
-    # ---- evaluate the property on the implementation ----
+    # ---- evaluate, in batches (the answers are large: tokens + green trees of input and outputs) ----
     cnt = {}
 
     def add(k, n=1):
         cnt[k] = cnt.get(k, 0) + n
-    viol = []          # (origin, src, path, key, symptoms)
+    viol = []          # (origin, src, path, {config: symptoms})
     crashes = []
-    good_frag = []     # indices of valid sources for the model part
     known_hits = {}
     stale = []
-    for idx, ((o, s, p), a) in enumerate(zip(S, res)):
-        add("sources")
-        add("origin:" + o.split(":")[0])
-        if a is None or "crash" in a:
-            crashes.append((o, s, p, a))
-            continue
-        if "in_panic" in a:
-            add("parser_panics_on_input")
-            continue
-        bad, cls = unexplained(a, findings)
-        if bad is None:
-            add("skipped_invalid_input")
-            if o.startswith("witness"):
-                stale.append(o + ": witness is not a valid program any more")
-            continue
-        add("valid_programs")
-        add("runs", len(a["runs"]))
-        allsy = set()
-        for run_ in a["runs"]:
-            allsy |= symptoms(a["in"], run_)
-        if not cls:
-            add("valid_outside_every_known_class")
-        if not allsy:
-            add("programs_all_facts_hold")
-        for c in cls:
-            add("class:" + c)
-            if allsy & CLASSES[c][1]:
-                known_hits.setdefault(c, (s, sorted(allsy)))
-        if bad:
-            viol.append((o, s, p, bad))
-        good_frag.append(idx)
-        if o == "shipped" or idx % 97 == 0:
-            ck.sample({"origin": o, "path": p, "source_head": s[:160], "classes": cls,
-                       "facts_failing_somewhere": sorted(allsy)}, cap=8)
-
-    # witnesses: the finding must still be alive on the real code, and the source must be in its class
-    for (cls, src, pred) in WITNESSES:
-        a = res[w_idx[cls]]
-        if a is None or "in" not in a or a["in"]["cst_errs"] > 0:
-            continue
-        incls = classes_of(a["in"])
-        alive = False
-        try:
-            alive = bool(pred(a))
-        except Exception:
-            alive = False
-        if cls not in incls:
-            ck.broken.append(f"class predicate {cls} does not hold on its own witness")
-            ck.violation(f"class predicate {cls} does not hold on its witness", {"src": src}, no_input=True)
-        if not alive:
-            stale.append(f"{cls}: witness {src!r} no longer shows the defect")
-        elif cls in findings:
-            ck.known(findings[cls], f"{src!r} -> {a['runs'][0].get('out', '')!r}")
-    ck.coverage["findings_not_reproduced"] = stale
-
-    for c, (s, sy) in known_hits.items():
-        if c in findings:
-            ck.known(findings[c], f"{s[:120]!r} fails {sy}")
-
-    # ---- model side: the real output must be an admissible rendering of the model document ----
-    n_frag = n_adm = n_unsafe = n_unsafe_outside = n_samedoc0_good = 0
-    not_admitted = []
+    not_admitted = []  # (origin, src, path, w, i)
     idem_mismatch = []
     emits_mismatch = []
-    sy0 = symptoms
-    if model_ok:
-        lines, owner = [], []
-        for idx in good_frag:
-            a = res[idx]
-            for run_, l in model_requests(a):
-                lines.append(l)
-                owner.append((idx, run_))
+    rl_bad = []
+    tot = {"frag": 0, "adm": 0, "unsafe": 0, "unsafe_outside": 0, "samedoc0_good": 0, "relayout": 0,
+           "harness_s": 0.0, "model_s": 0.0}
+    rr = ck.rng.fork("relayout")
+    n_rl = 2 if quick else 4
+    BATCH = 1500
+
+    def process(lo, hi):
+        batch = S[lo:hi]
+        reqs = [{"m": "fmt", "src": s, "widths": WIDTHS, "indents": INDENTS, "cst": True, "path": p} for (_, s, p) in batch]
         t0 = time.time()
-        try:
-            outs = run_model(exe_m, lines)
-        except Exception as ex:
-            outs = None
-            ck.broken.append("model driver: " + str(ex)[:300])
-        ck.coverage["model_s"] = round(time.time() - t0, 1)
-        if outs is not None:
+        res = run_harness(exe, reqs)
+        tot["harness_s"] += time.time() - t0
+        good = []
+        for j, ((o, s, p), a) in enumerate(zip(batch, res)):
+            idx = lo + j
+            add("sources")
+            add("origin:" + o.split(":")[0])
+            if a is None or "crash" in a:
+                crashes.append((o, s, p, a))
+                continue
+            if "in_panic" in a:
+                add("parser_panics_on_input")
+                continue
+            bad, cls = unexplained(a, findings)
+            if bad is None:
+                add("skipped_invalid_input")
+                if o.startswith("witness"):
+                    stale.append(o + ": witness is not a valid program any more")
+                continue
+            add("valid_programs")
+            add("runs", len(a["runs"]))
+            allsy = set()
+            for run_ in a["runs"]:
+                allsy |= symptoms(a["in"], run_)
+            if not cls:
+                add("valid_outside_every_known_class")
+            if not allsy:
+                add("programs_all_facts_hold")
+            for c in cls:
+                add("class:" + c)
+                if allsy & CLASSES[c][1]:
+                    known_hits.setdefault(c, (s, sorted(allsy)))
+            if bad:
+                viol.append((o, s, p, bad))
+            good.append(j)
+            if o == "shipped" or idx % 97 == 0:
+                ck.sample({"origin": o, "path": p, "source_head": s[:160], "classes": cls,
+                           "facts_failing_somewhere": sorted(allsy)}, cap=8)
+            # witnesses: the finding must still be alive on the real code, and the source must be in its class
+            if o.startswith("witness:"):
+                wcls = o.split(":", 1)[1]
+                pred = [w for w in WITNESSES if w[0] == wcls][0][2]
+                try:
+                    alive = bool(pred(a))
+                except Exception:
+                    alive = False
+                if wcls not in classes_of(a["in"]):
+                    ck.broken.append(f"class predicate {wcls} does not hold on its own witness")
+                    ck.violation(f"class predicate {wcls} does not hold on its witness", {"src": s}, no_input=True)
+                if not alive:
+                    stale.append(f"{wcls}: witness {s!r} no longer shows the defect")
+                elif wcls in findings:
+                    ck.known(findings[wcls], f"{s!r} -> {a['runs'][0].get('out', '')!r}")
+
+        # ---- model side: the real output must be an admissible rendering of the model document ----
+        if model_ok:
+            lines, owner = [], []
+            for j in good:
+                for run_, l in model_requests(res[j]):
+                    lines.append(l)
+                    owner.append((j, run_))
+            t0 = time.time()
+            try:
+                outs = run_model(exe_m, lines)
+            except Exception as ex:
+                outs = None
+                ck.broken.append("model driver: " + str(ex)[:300])
+            tot["model_s"] += time.time() - t0
             unsafe_srcs = set()
-            for (idx, run_), o in zip(owner, outs):
-                m = parse_model_answer(o)
+            for (j, run_), o_ in zip(owner, outs or []):
+                m = parse_model_answer(o_)
                 if "err" in m:
                     ck.broken.append("model driver error: " + m["err"][:200])
                     continue
                 if not m["frag"]:
                     add("runs_outside_fragment")
                     continue
-                n_frag += 1
-                o_, s_, p_ = S[idx]
+                tot["frag"] += 1
+                o, s, p = batch[j]
                 if m["admits"]:
-                    n_adm += 1
+                    tot["adm"] += 1
                 else:
-                    not_admitted.append((idx, run_["w"], run_["i"]))
+                    not_admitted.append((o, s, p, run_["w"], run_["i"]))
                 if not m["safe"]:
-                    n_unsafe += 1
-                    unsafe_srcs.add(idx)
+                    tot["unsafe"] += 1
+                    unsafe_srcs.add(j)
+                sy = symptoms(res[j]["in"], run_)
                 # hypothesis emits_all of C14_emits_all_same_tokens, decided by the model (commas are re-created by the printer)
                 ea = [w for w in m["dwords"] if w != ","] == [w for w in m["cwords"] if w != ","]
                 add("fragment_runs_emits_all_" + ("true" if ea else "false"))
-                if ea and ({"comments", "tokens"} & sy0(res[idx]["in"], run_)) and m["admits"] \
-                        and not classes_of(res[idx]["in"], findings):
-                    emits_mismatch.append((idx, run_["w"], run_["i"]))
-                sy = symptoms(res[idx]["in"], run_)
+                if ea and ({"comments", "tokens"} & sy) and m["admits"] and not classes_of(res[j]["in"], findings):
+                    emits_mismatch.append((o, s, p, run_["w"], run_["i"]))
                 if m["samedoc"] == "0" and not sy:
-                    n_samedoc0_good += 1
+                    tot["samedoc0_good"] += 1
                 if m["samedoc"] == "1" and "idem" in sy:
                     # the leading-comment wrapper of pretty_print is outside the document (finding FM5)
                     expl = set()
-                    for c in classes_of(res[idx]["in"], findings):
+                    for c in classes_of(res[j]["in"], findings):
                         expl |= CLASSES[c][1]
                     if "idem" not in expl:
-                        idem_mismatch.append((idx, run_["w"], run_["i"]))
-            for idx in unsafe_srcs:
-                if "if-then-branch-starts-with-bracket" not in classes_of(res[idx]["in"]):
-                    n_unsafe_outside += 1
-    ck.coverage["fragment_runs"] = n_frag
-    ck.coverage["fragment_runs_real_output_admitted_by_model"] = n_adm
-    ck.coverage["fragment_runs_model_unsafe_breaks"] = n_unsafe
-    ck.coverage["sources_model_unsafe_outside_known_class"] = n_unsafe_outside
-    ck.coverage["good_runs_where_idempotence_hypothesis_fails"] = n_samedoc0_good
+                        idem_mismatch.append((o, s, p, run_["w"], run_["i"]))
+            for j in unsafe_srcs:
+                if "if-then-branch-starts-with-bracket" not in classes_of(res[j]["in"]):
+                    tot["unsafe_outside"] += 1
 
-    # ---- parser line-break rule (hypothesis of C14_breaks_safe_same_parse_partial) on the real parser ----
-    rr = ck.rng.fork("relayout")
-    rl_reqs, rl_owner = [], []
-    n_rl = 2 if quick else 6
-    for idx in good_frag:
-        o, s, p = S[idx]
-        if o.startswith("gen") or o in ("lmmm", "corpus") or (not quick and o == "shipped"):
-            for k in range(n_rl):
-                t = relayout(rr.fork("%d.%d" % (idx, k)), res[idx]["in"]["toks"])
-                if t is not None:
-                    rl_reqs.append({"m": "parse", "src": t, "path": p})
-                    rl_owner.append((idx, t))
-    rl_res = run_harness(exe, rl_reqs) if rl_reqs else []
-    rl_bad = []
-    for (idx, t), a in zip(rl_owner, rl_res):
-        if a is None or "ast" not in a:
-            rl_bad.append((idx, t, "parser crashed"))
-        elif a["cst_errs"] != 0 or a["ast"] != res[idx]["in"]["ast"]:
-            rl_bad.append((idx, t, "different parse"))
-    ck.coverage["relayout_cases"] = len(rl_reqs)
+        # ---- parser line-break rule (hypothesis of C14_breaks_safe_same_parse_partial) on the real parser ----
+        rl_reqs, rl_owner = [], []
+        for j in good:
+            o, s, p = batch[j]
+            if o.startswith("gen") or o in ("lmmm", "corpus") or (not quick and o == "shipped"):
+                for k in range(n_rl):
+                    t = relayout(rr.fork("%d.%d" % (lo + j, k)), res[j]["in"]["toks"])
+                    if t is not None:
+                        rl_reqs.append({"m": "parse", "src": t, "path": p})
+                        rl_owner.append((j, t))
+        t0 = time.time()
+        rl_res = run_harness(exe, rl_reqs) if rl_reqs else []
+        tot["harness_s"] += time.time() - t0
+        tot["relayout"] += len(rl_reqs)
+        for (j, t), a in zip(rl_owner, rl_res):
+            o, s, p = batch[j]
+            if a is None or "ast" not in a:
+                rl_bad.append((o, s, p, t, "parser crashed"))
+            elif a["cst_errs"] != 0 or a["ast"] != res[j]["in"]["ast"]:
+                rl_bad.append((o, s, p, t, "different parse"))
+
+    for lo in range(0, len(S), BATCH):
+        process(lo, min(len(S), lo + BATCH))
+
+    ck.coverage["harness_s"] = round(tot["harness_s"], 1)
+    ck.coverage["model_s"] = round(tot["model_s"], 1)
+    ck.coverage["findings_not_reproduced"] = stale
+    for c, (s, sy) in known_hits.items():
+        if c in findings:
+            ck.known(findings[c], f"{s[:120]!r} fails {sy}")
+    ck.coverage["fragment_runs"] = tot["frag"]
+    ck.coverage["fragment_runs_real_output_admitted_by_model"] = tot["adm"]
+    ck.coverage["fragment_runs_model_unsafe_breaks"] = tot["unsafe"]
+    ck.coverage["sources_model_unsafe_outside_known_class"] = tot["unsafe_outside"]
+    ck.coverage["good_runs_where_idempotence_hypothesis_fails"] = tot["samedoc0_good"]
+    ck.coverage["relayout_cases"] = tot["relayout"]
     ck.coverage["relayout_parse_differs"] = len(rl_bad)
 
     # ---- numbers ----
@@ -1253,27 +1259,23 @@ def run(ck):
     if viol:
         ck.coverage["programs_violating_outside_known_classes"] = len(viol)
     if not_admitted and not viol:
-        idx, w, i = not_admitted[0]
-        o, s, p = S[idx]
+        o, s, p, w, i = not_admitted[0]
         ck.broken.append("correspondence Fmt.Model.doc_of/renderings vs mimium_fmt::pretty_print_cst")
         ck.violation("the real output is not an admissible rendering of the model document (model and implementation disagree)",
                      {"src": s, "path": p, "width": w, "indent": i, "disagreements": len(not_admitted),
                       "correspondence": "Fmt.Model.{doc_of,is_rendering} vs cst_print.rs cst_to_doc + pretty::render"}, no_input=True)
     if idem_mismatch and not viol:
-        idx, w, i = idem_mismatch[0]
-        o, s, p = S[idx]
+        o, s, p, w, i = idem_mismatch[0]
         ck.broken.append("correspondence: same model document but different second output")
         ck.violation("output and input have the same model document but the formatter is not idempotent on it",
                      {"src": s, "path": p, "width": w, "indent": i}, no_input=True)
     if emits_mismatch and not viol:
-        idx, w, i = emits_mismatch[0]
-        o, s, p = S[idx]
+        o, s, p, w, i = emits_mismatch[0]
         ck.broken.append("correspondence: model document emits every token/comment and admits the output, yet tokens/comments differ")
         ck.violation("the model says every token and comment is emitted and the output is a rendering, but the real token/comment sequence differs",
                      {"src": s, "path": p, "width": w, "indent": i}, no_input=True)
     if rl_bad and not viol:
-        idx, t, why = rl_bad[0]
-        o, s, p = S[idx]
+        o, s, p, t, why = rl_bad[0]
         ck.broken.append("hypothesis of C14_breaks_safe_same_parse_partial (parser looks at line breaks only at sensitive positions)")
         ck.violation("two layouts with the same tokens and the same line-break flags at the sensitive positions parse differently: " + why,
                      {"src": s, "relayout": t, "path": p, "cases": len(rl_bad)}, no_input=True)
